@@ -12,7 +12,7 @@ import tempfile
 from .. import common, shim, gen
 from . import seqprop
 
-GEN = ['JsonUtilGen.v', 'Locks.v', 'Decisions.v']
+GEN = ['JsonUtilGen.v', 'Locks.v', 'Decisions.v', 'OpsGen.v']
 DECISIONS = ['FileBuilder._append_suboperation', 'FileBuilder._assert_not_finished', 'FileBuilder._exec_simple_operation', 'FileBuilder._rebuild_file', 'FileBuilder._build_file', 'FileBuilder._subbuild', 'FileBuilder.build_file_with_comparison', 'FileBuilder.subbuild', 'FileBuilder._build', 'Cache.finish_building_file', 'Cache.finish_subbuild']
 SITES = False
 ORDER = False
